@@ -283,7 +283,7 @@ void RouterSession::checkAgainstFresh(const char *when) {
             Cn &c = kv.second;
             if (!c.alive || c.hyperedge || c.e[0].kind != 0 || c.e[1].kind != 0) continue;
             fc[kv.first] = new ConnRef(f, ConnEnd(Point(c.e[0].pt.x, c.e[0].pt.y), (ConnDirFlags)c.e[0].dirs), ConnEnd(Point(c.e[1].pt.x, c.e[1].pt.y), (ConnDirFlags)c.e[1].dirs));
-            if (!c.checkpoints.empty()) { std::vector<Checkpoint> cps; for (auto &q : c.checkpoints) cps.push_back(Checkpoint(Point(q.x, q.y))); fc[kv.first]->setRoutingCheckpoints(cps); }
+            if (!c.checkpoints.empty()) { std::vector<Checkpoint> cps = c.mkCheckpoints(); fc[kv.first]->setRoutingCheckpoints(cps); }
         }
         f->processTransaction();
         for (auto &kv : fc) freshCost[kv.first] = routeCost(kv.second);
@@ -474,12 +474,12 @@ void RouterSession::run() {
             if (conns.count(k) && conns[k].alive) continue;
             Cn c; c.e[0] = endFromJson(op["src"]); c.e[1] = endFromJson(op["dst"]); c.alive = true;
             if (!endValid(c.e[0]) || !endValid(c.e[1])) continue;
-            for (auto &q : op["checkpoints"].a) c.checkpoints.push_back(Pt{q[0].num(), q[1].num()});
+            c.setCheckpointsFrom(op["checkpoints"]);
             int ctor = (int)op.i("ctor", 0);
             e2 = guardedCall(this, [&] {
                 if (ctor == 0) c.ref = new ConnRef(router, mkEnd(c.e[0]), mkEnd(c.e[1]));
                 else { c.ref = new ConnRef(router); c.ref->setEndpoints(mkEnd(c.e[0]), mkEnd(c.e[1])); }
-                if (!c.checkpoints.empty()) { std::vector<Checkpoint> cps; for (auto &q : c.checkpoints) cps.push_back(Checkpoint(Point(q.x, q.y))); c.ref->setRoutingCheckpoints(cps); }
+                if (!c.checkpoints.empty()) { std::vector<Checkpoint> cps = c.mkCheckpoints(); c.ref->setRoutingCheckpoints(cps); }
                 if (op.boolean("callback", true)) { CbCtx *cc = new CbCtx{this, k}; cbctx.push_back(cc); c.ref->setCallback(connCallback, cc); }
             });
             conns[k] = c; edited = true; zeroMoveOnly = false;
